@@ -70,4 +70,110 @@ theorem responder_v1 (P : Prims) (K : Kdf) (magic : Nat) (rnd : List UInt8) (gLe
   unfold responder
   refine ⟨?_, ?_⟩ <;> simp only [h]
 
+/-! ### admission, received prefix, downgrade -/
+
+/-- an admission that admits both phases is transparent -/
+theorem responderAdm_admits (P : Prims) (K : Kdf) (magic : Nat) (rnd : List UInt8) (gLen : Nat)
+    (decoys : List Nat) (inp : List UInt8) (adm : Nat) (h1 : adm ≠ 1) (h2 : adm ≠ 2) :
+    (responderAdm P K magic rnd gLen decoys inp adm).1 = responder P K magic rnd gLen decoys inp := by
+  unfold responderAdm
+  cases hv : v1Mismatch (v1Prefix magic) inp 16 0 with
+  | error e => simp only []; unfold responder; simp only [hv]
+  | ok i =>
+    simp only [if_neg h1, if_neg h2]
+    cases hc : Ellswift.create rnd with
+    | none => simp only []; unfold responder; simp only [hv, hc]
+    | some r =>
+      obtain ⟨priv, ell, rnd'⟩ := r
+      simp only []
+      by_cases hg : gLen > 4095
+      · simp only [hg, if_true]; unfold responder; simp only [hv, hc, hg, if_true]
+      · simp only [hg, if_false]
+        by_cases hl : inp.length < 64
+        · simp only [hl, if_true]; unfold responder; simp only [hv, hc, hg, if_false, hl, if_true]
+        · simp only [hl, if_false]
+          by_cases hw : ((inp.take 64).drop 4).take 12 = ((v1Prefix magic).drop 4).take 12
+          · simp only [hw, if_true]; unfold responder; simp only [hv, hc, hg, if_false, hl, hw, if_true]
+          · simp only [hw, if_false, hv]
+
+/-- the v1 path never consults the admission and writes nothing -/
+theorem responderAdm_v1 (P : Prims) (K : Kdf) (magic : Nat) (rnd : List UInt8) (gLen : Nat)
+    (decoys : List Nat) (tail : List UInt8) (adm : Nat) :
+    responderAdm P K magic rnd gLen decoys (v1Prefix magic ++ tail) adm = (⟨[], .useV1, none, []⟩, 0, 0) := by
+  have hl : (v1Prefix magic).length = 16 := by simp [v1Prefix, natLE_length]
+  have h := v1Mismatch_all (v1Prefix magic) (v1Prefix magic ++ tail) 16 0 (by
+    intro j _ hj
+    refine ⟨by simp only [List.length_append, hl]; omega, ?_⟩
+    simp only [List.getD_eq_getElem?_getD]
+    rw [List.getElem?_append_left (by omega)])
+  unfold responderAdm
+  simp only [h]
+
+/-- a rejected first phase: nothing is written (no key is generated), one Acquire, no release -/
+theorem responderAdm_reject_first (P : Prims) (K : Kdf) (magic : Nat) (rnd : List UInt8) (gLen : Nat)
+    (decoys : List Nat) (inp : List UInt8) (i : Nat)
+    (hv : v1Mismatch (v1Prefix magic) inp 16 0 = .ok i) :
+    responderAdm P K magic rnd gLen decoys inp 1 = (⟨[], .admission, none, inp⟩, 1, 0) := by
+  unfold responderAdm
+  simp only [hv, if_true]
+
+/-- leases are balanced: never more releases than acquisitions, and every acquired lease has been
+released unless an Acquire itself failed -/
+theorem responderAdm_balanced (P : Prims) (K : Kdf) (magic : Nat) (rnd : List UInt8) (gLen : Nat)
+    (decoys : List Nat) (inp : List UInt8) (adm : Nat) :
+    (responderAdm P K magic rnd gLen decoys inp adm).2.2 ≤ (responderAdm P K magic rnd gLen decoys inp adm).2.1 ∧
+    ((responderAdm P K magic rnd gLen decoys inp adm).2.1 = (responderAdm P K magic rnd gLen decoys inp adm).2.2 ∨
+      ((responderAdm P K magic rnd gLen decoys inp adm).1.status = .admission ∧
+       (responderAdm P K magic rnd gLen decoys inp adm).2.1 = (responderAdm P K magic rnd gLen decoys inp adm).2.2 + 1)) := by
+  unfold responderAdm
+  simp only []
+  cases hv : v1Mismatch (v1Prefix magic) inp 16 0 with
+  | error e => simp
+  | ok i =>
+    simp only []
+    by_cases h1 : adm = 1
+    · simp [h1]
+    · simp only [if_neg h1]
+      cases Ellswift.create rnd with
+      | none => simp
+      | some r =>
+        simp only []
+        split
+        · simp
+        · split
+          · simp
+          · split
+            · simp
+            · split
+              · simp
+              · simp
+
+/-- `ReceivedPrefix()` of a responder that saw a v1 peer is exactly the 16-byte v1 prefix, which
+peer.go hands to the v1 message reader -/
+theorem responderPrefix_v1 (magic : Nat) (tail : List UInt8) (stopped : Bool) :
+    responderPrefix magic (v1Prefix magic ++ tail) stopped = v1Prefix magic := by
+  have hl : (v1Prefix magic).length = 16 := by simp [v1Prefix, natLE_length]
+  have h := v1Mismatch_all (v1Prefix magic) (v1Prefix magic ++ tail) 16 0 (by
+    intro j _ hj
+    refine ⟨by simp only [List.length_append, hl]; omega, ?_⟩
+    simp only [List.getD_eq_getElem?_getD]
+    rw [List.getElem?_append_left (by omega)])
+  unfold responderPrefix
+  simp only [h]
+  exact List.take_left' hl
+
+/-- downgrade signalling: an initiator that reads NOTHING is told to retry with v1; one that reads
+some but fewer than 64 bytes gets a plain I/O error -/
+theorem initiator_short (P : Prims) (K : Kdf) (magic : Nat) (rnd : List UInt8) (gLen : Nat)
+    (decoys : List Nat) (priv : Nat) (ell rnd' : List UInt8)
+    (hc : Ellswift.create rnd = some (priv, ell, rnd')) (hg : gLen ≤ 4095)
+    (inp : List UInt8) (hl : inp.length < 64) :
+    (initiator P K magic rnd gLen decoys inp).status = (if inp.length = 0 then .downgradeV1 else .io) ∧
+    (initiator P K magic rnd gLen decoys inp).written = ell ++ rnd'.take gLen := by
+  unfold initiator
+  rw [hc]
+  simp only []
+  rw [if_neg (by omega), if_pos hl]
+  exact ⟨rfl, rfl⟩
+
 end BV.C19.Lemmas
